@@ -47,7 +47,10 @@ BUILTIN_TYPES = {"dict", "list", "tuple", "set", "frozenset", "str", "int", "flo
 
 
 class InterpBase:
+    matched_loop_specs = None
+
     def __init__(self, index, table, contracts, ctx, state, top=None, libs=None):
+        self.matched_loop_specs = set()
         self.index = index
         self.table = table
         self.contracts = contracts      # key -> Contract
